@@ -1,6 +1,7 @@
 import Morlock.Driver.Engine
 import Morlock.Driver.Search
 import Morlock.Model.UciSeq
+import Morlock.Model.UciConc
 namespace Morlock.Driver
 open Morlock Morlock.Model
 
@@ -89,6 +90,92 @@ def uciGoDepth (z : ZTable) (u : UciM) (limit : Nat) : UciM × String :=
   let (tt', best) := iter limit 1 u.tt "0000"
   ({ u with tt := tt' }, best)
 
+/-! ### Conformance of the small-step model `UciConc` on deterministic scripts
+
+The theorems of C04/C16 are about `Model.UciConc`. On the deterministic scripts of the `ucidet`
+stream the small-step model is run under the canonical schedule (each command processed to the
+end, a search run to completion when the script waits for its answer, forwarders drained) and its
+visible events (`readyok`, `bestmove` of go number k) must be those of the sequential model, which
+the stream ties to the real driver exactly. -/
+namespace Conc
+open Morlock.Model.UciConc
+
+def consumed (s : State) : Nat := (s.log.filter fun e => match e with | .consume _ => true | _ => false).length
+
+/-- run the loop until `k` commands are consumed and it is back at `select`; unblock it by letting searches make progress -/
+def settle (k : Nat) : Nat → State → State
+  | 0, s => s
+  | fuel + 1, s =>
+    if s.loop == .select && consumed s ≥ k then s else
+    let s' := step s (.loop .cmd)
+    if s' != s then settle k fuel s' else
+      -- blocked: let every search iterate once (closes init), exit if halted, and forwarders run
+      let s1 := (List.range s.srch.length).foldl (fun s j => step s (.searchIter j)) s
+      let s2 := (List.range s1.srch.length).foldl (fun s j => if (searchAt s j).quit then step s (.searchExit j) else s) s1
+      let s3 := (List.range s2.fwds.length).foldl (fun s j => step (step (step s (.fwd j)) (.fwd j)) (.fwd j)) s2
+      if s3 != s then settle k fuel s3 else s
+
+/-- the script waits for the answer: the active search finishes by itself, forwarders drain -/
+def finish : Nat → State → State
+  | 0, s => s
+  | fuel + 1, s =>
+    let s1 := (List.range s.srch.length).foldl (fun s j => if (searchAt s j).done then s else step (step s (.searchIter j)) (.searchExit j)) s
+    let s2 := (List.range s1.fwds.length).foldl (fun s j => step s (.fwd j)) s1
+    if s2 != s then finish fuel s2 else s
+
+def visible (before after : State) : String :=
+  let new := (after.log.take (after.log.length - before.log.length)).reverse
+  String.join (new.filterMap fun e => match e with
+    | .send .readyok => some "R"
+    | .send (.bestmove id _) => some s!"B{id}"
+    | .sendClosed _ => some "!"
+    | _ => none)
+
+end Conc
+
+/-- abstract command of a script line for the small-step model -/
+def concCmd (line : String) : Model.UciConc.Cmd :=
+  let toks := fieldsSp line
+  match toks.headD "" |>.toLower with
+  | "isready" => .isready
+  | "ucinewgame" => .ucinewgame
+  | "position" => .position
+  | "stop" => .stop
+  | "quit" => .quit
+  | "go" =>
+    match toks.drop 1 with
+    | ["depth", n] => if n.toNat?.isSome then .go {} else .goMalformed
+    | [] => .go {}
+    | _ => .goMalformed
+  | _ => .other
+
+/-- visible events of the small-step model along a deterministic script, one item per step -/
+def concTrace (steps : List String) : List String :=
+  let cmds := steps.filterMap fun st =>
+    let st := trimSp st
+    if st.startsWith "> " then some (concCmd (st.drop 2).toString) else if st = "sync" then some .isready else if st = "close" then some .eof else none
+  let (_, _, out) := steps.foldl (fun (acc : Model.UciConc.State × Nat × List String) st =>
+    let (s, k, out) := acc
+    let st := trimSp st
+    if st.startsWith "> " || st = "sync" || st = "close" then
+      let s' := Conc.settle (k + 1) 200 s
+      (s', k + 1, out ++ [Conc.visible s s'])
+    else if st.startsWith "wait-bestmove" then
+      let s' := Conc.finish 50 s
+      (s', k, out ++ [Conc.visible s s'])
+    else (s, k, out ++ [""])) (Model.UciConc.init cmds, 0, [])
+  out
+
+/-- the same abstraction of the sequential model's trace: R for readyok, B<k> for the answer to the k-th go -/
+def seqAbstract (steps : List String) (ms : List String) : List String :=
+  let (_, out) := (steps.zip ms).foldl (fun (acc : Nat × List String) (st, m) =>
+    let (gos, out) := acc
+    let st := trimSp st
+    let gos := if st.startsWith "> " && (concCmd (st.drop 2).toString matches .go _) then gos + 1 else gos
+    let item := if m.startsWith "sync=readyok" then "R" else if m.startsWith "answered=bestmove" then s!"B{gos}" else ""
+    (gos, out ++ [item])) (0, [])
+  out
+
 def uciOp (st : DriverState) (args : List String) : String :=
   match args with
   | kind :: seed :: ";" :: rest =>
@@ -148,7 +235,11 @@ def uciOp (st : DriverState) (args : List String) : String :=
         else if step = "close" then (u, sb, pending, ms ++ ["closed-input"], ss ++ ["closed-input"])
         else (u, sb, pending, ms ++ ["bad-step"], ss ++ ["bad-step"]))
         (u0, sb0, none, [], [])
-      joinSp ms ++ " ## " ++ joinSp ss
+      -- conformance of the small-step model (C04/C16 theorems are about it)
+      let conc := concTrace steps
+      let seqA := seqAbstract steps ms
+      let tag := if conc == seqA then "" else " CONC-MISMATCH:" ++ String.intercalate "," conc ++ "/" ++ String.intercalate "," seqA
+      joinSp ms ++ tag ++ " ## " ++ joinSp ss
   | _ => "bad-op"
 
 end Morlock.Driver
